@@ -295,6 +295,20 @@ def check_config(cfg_name: str, family: str, ctor: str, kind: str, tier: str, se
     max_actions = BOUNDS[tier]["max_actions"] if kind != "default" else DEFAULT_MAX_ACTIONS
     cx = Ctx(cfg_name, family, ctor, max_actions)
     try:
+        return _check_config_guarded(cx, cfg_name, family, ctor, kind, tier, seed)
+    finally:
+        _release_memory()  # pool workers are re-used: do not let compiled executables pile up across tasks
+
+
+def _release_memory() -> None:
+    import gc
+
+    jax.clear_caches()
+    gc.collect()
+
+
+def _check_config_guarded(cx: "Ctx", cfg_name: str, family: str, ctor: str, kind: str, tier: str, seed: int) -> Dict[str, Any]:
+    try:
         return _check_config(cx, cfg_name, family, ctor, kind, tier, seed)
     except jax.errors.UnexpectedTracerError as e:
         # a traced value was kept in Python-side state (self / module global) by one trace and read by a later
@@ -781,7 +795,9 @@ def run_histories(cx: Ctx, env: Any, twin: Any, gx: GraphExec, ctor: str, action
         if not eager_cheap:
             maximal = list(itertools.product(CALLS, repeat=2))
             n_hist = len(CALLS) + len(CALLS) ** 2
-        for seq in maximal:
+        for n_obj, seq in enumerate(maximal):
+            if n_obj and n_obj % 25 == 0:
+                _release_memory()  # every object compiles its own eager closures; bound the worker's memory
             envh = _make(ctor)
             n_calls, bad = run_history(envh, seq, calls, expected)
             cx.count("n_history_calls", n_calls)
